@@ -269,9 +269,10 @@ def decode_number(data_raw: int, bit_offset: int, bit_length: int, signed: bool,
     # adjust resolution
     number_int *= resolution
 
-    if number_int < min_value:
+    # raw * resolution can land a few ulp outside the range when the raw value sits exactly on a range end
+    if number_int < min_value and not math.isclose(number_int, min_value, rel_tol=1e-12):
         raise ValueError("Value below minimum allowed")
-    if number_int > max_value:
+    if number_int > max_value and not math.isclose(number_int, max_value, rel_tol=1e-12):
         raise ValueError("Value above maximum allowed")
 
     return number_int
